@@ -35,6 +35,7 @@ type c10Prog struct {
 	Steps int      `json:"steps"`
 	Req   []c10Req `json:"requests,omitempty"` // request raised before Step j
 	K     int      `json:"snapshot_at"`
+	NoIO  bool     `json:"no_io_device,omitempty"` // CPU.IO == nil
 	Salt  uint32   `json:"salt"`
 }
 
@@ -70,11 +71,22 @@ func newC10Machine(bg *[65536]uint8) *c10Machine {
 }
 
 // cloneFrom rebuilds m as a *fresh* CPU value from copies of o's public state.
-func (m *c10Machine) cloneFrom(o *c10Machine) {
+func (m *c10Machine) cloneFrom(o *c10Machine) { m.cloneFromOpt(o, true) }
+
+// cloneFromOpt: withHalt=false leaves the halted indication out of the copy - it is not part of
+// States, and the statement lets the outcome of a Step depend on States, the pending request and
+// memory/ports only.
+func (m *c10Machine) cloneFromOpt(o *c10Machine, withHalt bool) {
 	m.mem.CopyFrom(o.mem)
 	// the device answers independently of its history (Fixed), so a copy is its parameters
 	*m.io = obs.IO{X: o.io.X, Y: o.io.Y, Fixed: o.io.Fixed}
-	fresh := &z80.CPU{States: o.cpu.States, HALT: o.cpu.HALT, Memory: m.mem, IO: m.io}
+	fresh := &z80.CPU{States: o.cpu.States, Memory: m.mem, IO: m.io}
+	if withHalt {
+		fresh.HALT = o.cpu.HALT
+	}
+	if o.cpu.IO == nil {
+		fresh.IO = nil
+	}
 	if o.cpu.Interrupt != nil {
 		cp := *o.cpu.Interrupt
 		cp.Data = append([]uint8{}, o.cpu.Interrupt.Data...)
@@ -98,6 +110,9 @@ func (m *c10Machine) load(p *c10Prog) {
 	s.IFF1, s.IFF2, s.IM = true, true, 1
 	s.I = 0x20
 	m.cpu = &z80.CPU{Memory: m.mem, IO: m.io}
+	if p.NoIO {
+		m.cpu.IO = nil
+	}
 	toCPU(&s, m.cpu)
 }
 
@@ -127,6 +142,7 @@ func c10Snapshot(a, b *c10Machine, p *c10Prog, only int) ([]string, int) {
 	}
 	steps := 0
 	// run the original, keeping its trajectory
+	ignoreHalt := false
 	run := func(m *c10Machine, from int, cmp bool) []string {
 		for j := from; j < p.Steps; j++ {
 			if k, ok := reqAt[j]; ok {
@@ -137,6 +153,9 @@ func c10Snapshot(a, b *c10Machine, p *c10Prog, only int) ([]string, int) {
 			}
 			steps++
 			d := c10Digest(m)
+			if cmp && ignoreHalt {
+				d.halt = traj[j+1].halt
+			}
 			if !cmp {
 				traj = append(traj, d)
 			} else if d != traj[j+1] {
@@ -173,6 +192,14 @@ func c10Snapshot(a, b *c10Machine, p *c10Prog, only int) ([]string, int) {
 		if d := run(b, k, true); d != nil {
 			return d, steps
 		}
+		// the same without copying the halted indication (compared on everything but that field)
+		b.cloneFromOpt(a, false)
+		ignoreHalt = true
+		d := run(b, k, true)
+		ignoreHalt = false
+		if d != nil {
+			return append([]string{"rebuilt from States + pending request + memory only (halted indication not copied):"}, d...), steps
+		}
 	}
 	return nil, steps
 }
@@ -199,7 +226,17 @@ func c10StructuredProgs() []c10Prog {
 		mk("IM switches", []uint8{0xED, 0x46, 0xED, 0x56, 0xED, 0x5E, 0xED, 0x57, 0xED, 0x5F, 0x76}, 8),
 		mk("DAA chain", []uint8{0x3E, 0x99, 0xC6, 0x01, 0x27, 0xD6, 0x02, 0x27, 0x3F, 0x27, 0x76}, 9),
 		mk("EXX / EX AF", []uint8{0x08, 0xD9, 0x3C, 0x04, 0x08, 0xD9, 0x76}, 8),
+		mk("parked on HALT, then LD A,R after an interrupt", []uint8{0xFB, 0x76, 0xED, 0x5F, 0x76}, 14),
+		mk("HALT; (jump out by host is not modelled) HALT x6", []uint8{0x76}, 6),
 	}
+	noio := []c10Prog{
+		mk("no IO device: IN A,(10); OUT (10),A; IN A,(10); OUT (C),B; IN E,(C)", []uint8{0xDB, 0x10, 0x3E, 0x5A, 0xD3, 0x10, 0xDB, 0x10, 0xED, 0x41, 0xED, 0x58, 0x76}, 8),
+		mk("no IO device: OTIR; INIR", []uint8{0x06, 0x03, 0x0E, 0x10, 0x21, 0x30, 0x60, 0xED, 0xB3, 0x06, 0x02, 0xED, 0xB2, 0x76}, 12),
+	}
+	for i := range noio {
+		noio[i].NoIO = true
+	}
+	progs = append(progs, noio...)
 	// the same programs with each kind of request at a few boundaries
 	n := len(progs)
 	for i := 0; i < n; i++ {
@@ -508,6 +545,49 @@ func checkC10(c *Ctx) {
 					c.Report(fmt.Sprintf("c10/isolation:request-kind-%d", kind), int64(kind), "", c10Iso{Enc: fmt.Sprintf("request kind %d", kind), Sched: x.Choices(), Salt: c.Salt},
 						[]string{fmt.Sprintf("2 CPUs accepting a request of kind %d at the same time (0 NMI, 1 IM1, 2 IM2, 3 mode-0 RST, 4 mode-0 CALL, 5 mode-0 INC/DEC A, 6 mode-0 LD HL,nn), schedule %v: CPU %d ends differently from its solo run", kind, x.Choices(), t),
 							fmt.Sprintf("solo:        %v %s", stateMap(&solo[t]), sololog[t]), fmt.Sprintf("interleaved: %v %s", stateMap(&res[t]), logs[t])})
+					return false
+				}
+			}
+			return true
+		})
+		counters[0] += int64(st.Executions)
+		pts[0] += int64(st.Points)
+	}
+	// two CPUs without an IO device (CPU.IO == nil) doing port I/O at the same time: OUT (10),A ; IN A,(10) ; OUT (C),B ; IN E,(C)
+	{
+		code := []uint8{0xD3, 0x10, 0xDB, 0x10, 0xED, 0x41, 0xED, 0x58}
+		body := func(results *[2]refz80.State) func(s *sched.Scheduler) {
+			return func(s *sched.Scheduler) {
+				for t := 0; t < 2; t++ {
+					t := t
+					w := newC10Machine(bg)
+					p := baseVector(t)
+					p.S.PC = 0x0100
+					w.mem.Poke(0x0100, code...)
+					toCPU(&p.S, w.cpu)
+					w.cpu.IO = nil
+					w.mem.Hook = func(bool, uint16) { s.Point("mem") }
+					s.Go(fmt.Sprintf("cpu%d", t), func() {
+						for i := 0; i < 4; i++ {
+							w.cpu.Step()
+							s.Point("between Steps")
+						}
+						results[t] = fromCPU(w.cpu)
+					})
+				}
+			}
+		}
+		var solo, res [2]refz80.State
+		sched.Execute(nil, 4000, body(&solo))
+		st := sched.Explore(3, 4000, 400000, body(&res), func(x *sched.Scheduler) bool {
+			if pv, tr := x.Panic(); pv != nil {
+				c.Report("c10/isolation:no-io-device", 0, "", c10Iso{Enc: "no IO device", Sched: x.Choices(), Salt: c.Salt}, []string{fmt.Sprintf("panic: %v", pv), tr})
+				return false
+			}
+			for t := 0; t < 2; t++ {
+				if res[t] != solo[t] {
+					c.Report("c10/isolation:no-io-device", 0, "", c10Iso{Enc: "no IO device", Bytes: hexBytes(code), Sched: x.Choices(), Salt: c.Salt},
+						[]string{fmt.Sprintf("2 CPUs without IO device running OUT (10),A; IN A,(10); OUT (C),B; IN E,(C), schedule %v: CPU %d ends differently from its solo run: solo %v interleaved %v", x.Choices(), t, stateMap(&solo[t]), stateMap(&res[t]))})
 					return false
 				}
 			}
